@@ -1,37 +1,29 @@
 """Per-property configuration of the orchestrator (bin/check).
 
+One JSON file per property in tools/props.d/<id>.json (so that branches never conflict):
+
 groups      harness generator groups whose cases decide the property (qvh gen <group> …)
 module      Lean module holding the property's theorems (QV.Properties.<id> by default)
 features    cargo features of /repo the harness needs for this property
 strict_err  compare error *variants* between implementation and model for the verdict
             (only where the property names the error; otherwise informational)
 design_ref  DESIGN.md section
+technique, level_text, level_note, assumptions, evidence_notes   free text for MANIFEST/evidence
 """
+import glob
+import json
+import os
 
-PROPS = {
-    "C12": {
-        "groups": ["writer"],
-        "design_ref": "§6 C12/C13",
-        "technique": "Lean 4 proof over a byte-exact model of Writer (all public methods, three compression modes, hints, rollback, templates, EDNS/TSIG reservations): invariant + rollback + size-limit + no-spurious-truncation + ext-RCODE theorems for all op sequences, refinement to an abstract message via an independent RFC 1035 decoder; model tied to src/message/writer.rs by whole-session differential correspondence; the spec (independent decoder + abstract semantics + pointer audit) is evaluated on the implementation's own octets for every generated session",
-        "strict_err": True,
-    },
-    "C13": {
-        "groups": ["writerptr"],
-        "design_ref": "§6 C12/C13",
-        "technique": "Lean 4 proof: every pointer emission of the Writer model is logged (ghost state); theorems for all op sequences and modes on where pointers are emitted and on their targets; components table checked against RFC 3597 §4; pointer audit (strictly backwards, onto a label start of an earlier name, not in SRV/CH-A/unknown RDATA, none while Disabled) on the implementation's octets with the independent decoder for every generated session",
-        "strict_err": True,
-    },
-    "C14": {
-        "groups": ["wire"],
-        "design_ref": "§6 C14",
-        "technique": "Lean 4 proof: parser ↔ inductive RFC 1035 §4.1.4 relation (sound+complete, no panic, termination); model tied to src/name/wire.rs by differential correspondence incl. exhaustive ≤5-octet buffers",
-    },
-}
+_HERE = os.path.dirname(os.path.abspath(__file__))
+PROPS = {}
+for _p in sorted(glob.glob(os.path.join(_HERE, "props.d", "C*.json"))):
+    with open(_p, encoding="utf-8") as _f:
+        PROPS[os.path.basename(_p)[:-5]] = json.load(_f)
 
 TRUSTED_BASE = [
     "Lean 4.33.0 kernel (leanchecker re-check in the thorough tier)",
     "axioms allowed: propext, Classical.choice, Quot.sound (audited per theorem with #print axioms); no sorry/admit/native_decide/bv_decide/own axioms",
     "QV/Spec/*: that the specification says what the property says (DESIGN.md §6 records every interpretation)",
     "correspondence check (harness/ + Lean driver + canonicaliser): differential testing that the hand-written model mirrors /repo's current source; the extractor (tools/extract.py) ties constants and tables",
-    "rustc/cargo dev profile (overflow checks on); std, arrayvec, hashbrown, hmac/sha crates as used by quandary",
+    "rustc/cargo dev profile (overflow checks on); std, arrayvec, hashbrown, hmac/sha crates as used by quandary"
 ]
